@@ -16,10 +16,16 @@ ARTIM = 10
 def _store_parts():
     """fragments of a C-STORE-RQ: command in two fragments (1, 3), data in fragments (0..., 2)"""
     m = scen.store_rq(9, 120)
-    raws = scen.wire(m, 3, 6 + 60)
+    raws = scen.wire(m, 3, 0)
     items = [pdu.PDataTfPDU.decode(r).data_value_items[0] for r in raws]
-    cmd = [i for i in items if i.data_value[0] in (1, 3)]
-    data = [i for i in items if i.data_value[0] in (0, 2)]
+    whole_cmd = b''.join(i.data_value[1:] for i in items if i.data_value[0] in (1, 3))
+    whole_data = b''.join(i.data_value[1:] for i in items if i.data_value[0] in (0, 2))
+    # cut by hand (the tokens must not depend on the encoder's choice of fragment size)
+
+    def cut(blob, more, last, n):
+        parts = [blob[i:i + n] for i in range(0, len(blob), n)]
+        return [pdu.PresentationDataValueItem(3, bytes([more if k < len(parts) - 1 else last]) + x) for k, x in enumerate(parts)]
+    cmd, data = cut(whole_cmd, 1, 3, 59), cut(whole_data, 0, 2, 59)
     assert len(cmd) >= 2 and len(data) >= 2
     return cmd, data
 
